@@ -17,7 +17,7 @@ MC_INV = {
     "C07": ["CompactionSafe", "IndexAgrees"],
 }
 T_MON = {
-    "C03": ["M_ReadIsSnapshot", "M_MoreFlag", "M_CountIsSnapshot", "M_StreamIsSnapshot", "M_ReadableServed", "M_HeaderCoversData", "M_ReadStable"],
+    "C03": ["M_ReadIsSnapshot", "M_MoreFlag", "M_CountIsSnapshot", "M_StreamIsSnapshot", "M_ReadableServed", "M_HeaderCoversData", "M_ReadStable", "M_BulkStreamExactlyOnce"],
     "C08": ["M_FloorMonotone", "M_FloorAccepted", "M_BelowFloorRefused", "M_CompactClampCommitted"],
     "C13": ["M_ReadIsSnapshot", "M_CountIsSnapshot", "M_StreamIsSnapshot", "M_StreamOneTerminator", "M_StreamBatchRevision", "M_PartitionsTileInterval", "M_BulkStreamExactlyOnce"],
     "C12": ["M_EnginesAgree"],
@@ -222,17 +222,19 @@ def check_seq(prop, tier, seed):
             # "... and returns the same answer whenever it is asked again": reads answered while writes are in flight
             # (reader processes of the concurrent model), judged when answered and again when everything has settled
             alltraces += fam_write.reader_part(work, binp, cov, quick, seed)
-        if prop == "C13":
-            # the same property at a scale the bounded histories do not reach (the scanner streams in batches of 300)
+        if prop in ("C13", "C03"):
+            # the same property at a scale the bounded histories do not reach (the scanner streams in batches of 300); for C03 the
+            # part that matters is the read that meets a transient iterator error half way: the worker starts again and the answer
+            # (unlimited list, limited list, count, stream) must still be the snapshot, each key once
             d = work.sub("streambulk")
             tr = os.path.join(d, "streambulk.ndjson"); rp = os.path.join(d, "streambulk.json")
-            rc, out = run([binp, "streambulk", "-out", tr, "-report", rp, "-engine", "memkv,badger,tikv-regions"], env=GOENV, timeout=900)
+            rc, out = run([binp, "streambulk", "-out", tr, "-report", rp, "-engine", "memkv" if (prop == "C03" and quick) else "memkv,badger,tikv-regions"], env=GOENV, timeout=900)
             if rc != 0 or not os.path.exists(rp):
                 raise Undecided("streambulk failed (rc=%s): %s" % (rc, (out or "")[-800:]))
             alltraces.append(tr)
             cov["replay"].append(dict(what="40 / 400 / 1500 keys, a partition border between two versions of one key, streamed as a whole and per advertised partition; "
                                            "with one transient iterator error: the stream, an unlimited list, a limited list and a count",
-                                      runs=json.load(open(rp)).get("behaviours", 0), engines="memkv,badger,tikv-regions"))
+                                      runs=json.load(open(rp)).get("behaviours", 0), engines="memkv" if (prop == "C03" and quick) else "memkv,badger,tikv-regions"))
         # ---- 3. verdicts from trace validation
         if prop == "C12":
             ntr, v = validate_all(work, allagree, T_MON[prop], module="TraceAgree.tla")
